@@ -407,6 +407,7 @@ def generate(unit, template_path, repo=None, canary=False):
         if lifted_sig is not None:
             fi.is_fn = True
         user_rw = []
+        expand_macros = []
         spec_dir = None
         loop_dirs = {}
         body_inserts = []
@@ -443,6 +444,8 @@ def generate(unit, template_path, repo=None, canary=False):
                 if not m:
                     raise AnchorError(f'template line {sd.lineno}: bad rw directive')
                 user_rw.append((m.group(1), m.group(2), m.group(3), m.group(4), sd.lineno))
+            elif sd.kind == 'expand':
+                expand_macros.append((sd.arg.strip(), sd.lineno))
             elif sd.kind == 'spec':
                 spec_dir = sd
             elif sd.kind == 'loop':
@@ -466,6 +469,13 @@ def generate(unit, template_path, repo=None, canary=False):
             body, n = rw.r1_attrs(body, add_structural=structural, drop_extra=dropd)
             count('R1', n)
             fi.rewrites['R1'] = n
+        for mname, lineno in expand_macros:
+            # R24: invocations of a local single-rule macro_rules! macro are expanded textually from the macro's definition in the same file
+            body, n, (ma, mb) = rw.r24_expand_macro(body, mname, src.text)
+            count('R24', n)
+            fi.rewrites['R24'] = fi.rewrites.get('R24', 0) + n
+            if n and not any(x.path == src.path and x.start == ma for x in g.slices):
+                g.slices.append(Slice(src, ma, mb, f'macro_rules! {mname}'))
         for rid, pat, tpl, cnt, lineno in user_rw:
             body, n = rw.apply_pattern(body, pat, tpl)
             if cnt:
